@@ -201,7 +201,13 @@ impl Process for Rec {
         if matches!(&got, Got::Regular(v) if *v == poison()) {
             self.record(Got::Failed);
             self.maybe_stall().await;
-            return Err(edp_node::Error::InvalidMessage("poison".to_string()));
+            // a handler can fail with any error of the crate (for instance one it got from a send of its own)
+            return Err(match self.world.draw(4) {
+                0 => edp_node::Error::InvalidMessage("poison".to_string()),
+                1 => edp_node::Error::MailboxClosed,
+                2 => edp_node::Error::NodeNotConnected("nowhere@host".to_string()),
+                _ => edp_node::Error::RpcCancelled,
+            });
         }
         let nap_s = match &got {
             Got::Regular(v) => parse_body(v).map(|(_, _, n, _)| n).filter(|n| *n >= NAP_BASE).map(|n| (n - NAP_BASE) as u64),
